@@ -163,7 +163,7 @@ of the API.
   match: no panic, `IsAny` = disjunction of `Is`, reflexive (`H06-r17`; before, it
   was only ever the reference).
 * **C18** — *same-operation storms*: after the mixed phase, five PRNG-chosen
-  operations per case are run by all goroutines at once, 4 / 8 times back to back.
+  operations per case are run by all goroutines at once, 4 times back to back.
   `Q10-r16` (a lock-free package-level memo whose key and value are published by
   two separate atomic operations: nothing for the race detector, only the
   determinism monitor can see it) was caught on 1–5 observations per run before,
